@@ -477,6 +477,8 @@ def run_cross_rules(ctx):
         ('interval_bad_bracket', lambda: M.IntervalGrader(answers='{1,2}')),
         ('interval_bad_bracket', lambda: M.IntervalGrader(answers=['[', '1', '2', '>'])),
         ('interval_wrong_length', lambda: M.IntervalGrader(answers=['[', '1', ']'])),
+        ('interval_answer_unreadable', lambda: M.IntervalGrader(answers='[1]')), ('interval_answer_unreadable', lambda: M.IntervalGrader(answers='[]')),
+        ('interval_answer_unreadable', lambda: M.IntervalGrader(answers=('[1,2]', '[3]'))),
         ('interval_bracket_not_single_character', lambda: M.IntervalGrader(answers=['[(', '1', '2', ']'])),
         ('interval_bracket_not_single_character', lambda: M.IntervalGrader(answers=['[', '1', '2', '])'])),
         ('empty_answer_list', lambda: M.SingleListGrader(answers=[], subgrader=S())),
